@@ -308,3 +308,246 @@ func extractC04PatternCache(repo string) (string, error) {
 	b.WriteString("]\n\nend KinModel.Gen\n")
 	return b.String(), nil
 }
+
+// Table C04OptionState: where the settings record (`*ValidationOptions`) a validation method works on comes from, and
+// who writes to it after the option list has been folded.
+//   ("fallback", "getValidationOptions", "fresh-zero")   — without a record in the context the function's last statement
+//                                                           is `return &ValidationOptions{}`: a new zero record per call
+//   ("fallback", "getValidationOptions", "other: <text>") — anything else (e.g. a package-level instance)
+//   ("global", <name>, <type/value text>)                 — a package-level variable whose type or initial value mentions
+//                                                           ValidationOptions (a record that outlives a call)
+//   ("write", <function>, "<field>=<value>")              — an assignment to a field of ValidationOptions outside the
+//                                                           closures of the option constructors
+//   ("read", <function>, <field>)                         — a read of a field that no constructor writes (the example
+//                                                           reading mode examplesValidationAsReq / …AsRes)
+func init() { register("C04OptionState", extractC04OptionState) }
+
+func extractC04OptionState(repo string) (string, error) {
+	fset := token.NewFileSet()
+	dir := filepath.Join(repo, "openapi3")
+	ents, err := os.ReadDir(dir)
+	if err != nil {
+		return "", err
+	}
+	type row struct{ kind, fn, detail, pos string }
+	var rows []row
+	var unrec []string
+	text := func(e ast.Expr) string {
+		if e == nil {
+			return ""
+		}
+		return vsExprText(fset, e)
+	}
+	files := map[string]*ast.File{}
+	var names []string
+	for _, e := range ents {
+		if e.IsDir() || !strings.HasSuffix(e.Name(), ".go") || strings.HasSuffix(e.Name(), "_test.go") {
+			continue
+		}
+		f, err := parser.ParseFile(fset, filepath.Join(dir, e.Name()), nil, 0)
+		if err != nil {
+			return "", err
+		}
+		files[e.Name()] = f
+		names = append(names, e.Name())
+	}
+	sort.Strings(names)
+	// the fields of ValidationOptions
+	fields := map[string]bool{}
+	if f := files["validation_options.go"]; f != nil {
+		for _, d := range f.Decls {
+			if gd, ok := d.(*ast.GenDecl); ok {
+				for _, sp := range gd.Specs {
+					if ts, ok := sp.(*ast.TypeSpec); ok && ts.Name.Name == "ValidationOptions" {
+						if st, ok := ts.Type.(*ast.StructType); ok {
+							for _, fl := range st.Fields.List {
+								for _, n := range fl.Names {
+									fields[n.Name] = true
+								}
+							}
+						}
+					}
+				}
+			}
+		}
+	}
+	if len(fields) == 0 {
+		unrec = append(unrec, "struct ValidationOptions not found")
+	}
+	// fields written by the constructors (table OptionCtors reads them); every other field is "mode" state
+	ctorFields := map[string]bool{}
+	foundFallback := false
+	for _, fname := range names {
+		f := files[fname]
+		pos := func(n ast.Node) string { return fmt.Sprintf("%s:%d", fname, fset.Position(n.Pos()).Line) }
+		for _, d := range f.Decls {
+			switch x := d.(type) {
+			case *ast.GenDecl:
+				if x.Tok != token.VAR {
+					continue
+				}
+				for _, sp := range x.Specs {
+					vs, ok := sp.(*ast.ValueSpec)
+					if !ok {
+						continue
+					}
+					t := text(vs.Type)
+					for _, v := range vs.Values {
+						t += " = " + text(v)
+					}
+					if strings.Contains(t, "ValidationOptions") {
+						for _, n := range vs.Names {
+							rows = append(rows, row{"global", n.Name, strings.TrimSpace(t), pos(vs)})
+						}
+					}
+				}
+			case *ast.FuncDecl:
+				if x.Body == nil {
+					continue
+				}
+				name := x.Name.Name
+				if x.Recv != nil && len(x.Recv.List) == 1 {
+					t := x.Recv.List[0].Type
+					if st, ok := t.(*ast.StarExpr); ok {
+						t = st.X
+					}
+					if id, ok := t.(*ast.Ident); ok {
+						name = id.Name + "." + name
+					}
+				}
+				isCtor := false
+				if fname == "validation_options.go" && x.Recv == nil && x.Type.Results != nil && len(x.Type.Results.List) == 1 {
+					if id, ok := x.Type.Results.List[0].Type.(*ast.Ident); ok && id.Name == "ValidationOption" {
+						isCtor = true
+					}
+				}
+				if fname == "validation_options.go" && name == "getValidationOptions" {
+					foundFallback = true
+					detail := "other: no final return"
+					if n := len(x.Body.List); n > 0 {
+						if ret, ok := x.Body.List[n-1].(*ast.ReturnStmt); ok && len(ret.Results) == 1 {
+							detail = "other: " + text(ret.Results[0])
+							if u, ok := ret.Results[0].(*ast.UnaryExpr); ok && u.Op == token.AND {
+								if cl, ok := u.X.(*ast.CompositeLit); ok && len(cl.Elts) == 0 {
+									if id, ok := cl.Type.(*ast.Ident); ok && id.Name == "ValidationOptions" {
+										detail = "fresh-zero"
+									}
+								}
+							}
+						}
+					}
+					rows = append(rows, row{"fallback", name, detail, pos(x)})
+				}
+				written := map[*ast.SelectorExpr]bool{}
+				ast.Inspect(x.Body, func(n ast.Node) bool {
+					switch s := n.(type) {
+					case *ast.AssignStmt:
+						for i, l := range s.Lhs {
+							target := l
+							if ix, ok := l.(*ast.IndexExpr); ok {
+								target = ix.X
+							}
+							sel, ok := target.(*ast.SelectorExpr)
+							if !ok || !fields[sel.Sel.Name] {
+								continue
+							}
+							written[sel] = true
+							if isCtor {
+								ctorFields[sel.Sel.Name] = true
+								continue
+							}
+							val := "?"
+							if len(s.Rhs) == len(s.Lhs) {
+								val = text(s.Rhs[i])
+							}
+							rows = append(rows, row{"write", name, sel.Sel.Name + "=" + val, pos(s)})
+						}
+					case *ast.IncDecStmt:
+						if sel, ok := s.X.(*ast.SelectorExpr); ok && fields[sel.Sel.Name] {
+							unrec = append(unrec, pos(s)+" (increment of a settings field)")
+						}
+					case *ast.UnaryExpr:
+						if s.Op == token.AND {
+							if sel, ok := s.X.(*ast.SelectorExpr); ok && fields[sel.Sel.Name] {
+								unrec = append(unrec, pos(s)+" (address of a settings field taken)")
+							}
+						}
+					}
+					return true
+				})
+				_ = written
+			}
+		}
+	}
+	// reads of the fields no constructor writes
+	for _, fname := range names {
+		f := files[fname]
+		for _, d := range f.Decls {
+			x, ok := d.(*ast.FuncDecl)
+			if !ok || x.Body == nil {
+				continue
+			}
+			name := x.Name.Name
+			if x.Recv != nil && len(x.Recv.List) == 1 {
+				t := x.Recv.List[0].Type
+				if st, ok := t.(*ast.StarExpr); ok {
+					t = st.X
+				}
+				if id, ok := t.(*ast.Ident); ok {
+					name = id.Name + "." + name
+				}
+			}
+			lhs := map[ast.Expr]bool{}
+			ast.Inspect(x.Body, func(n ast.Node) bool {
+				if s, ok := n.(*ast.AssignStmt); ok {
+					for _, l := range s.Lhs {
+						lhs[l] = true
+					}
+				}
+				return true
+			})
+			ast.Inspect(x.Body, func(n ast.Node) bool {
+				sel, ok := n.(*ast.SelectorExpr)
+				if !ok || !fields[sel.Sel.Name] || ctorFields[sel.Sel.Name] || lhs[sel] {
+					return true
+				}
+				rows = append(rows, row{"read", name, sel.Sel.Name, fmt.Sprintf("%s:%d", fname, fset.Position(sel.Pos()).Line)})
+				return true
+			})
+		}
+	}
+	if !foundFallback {
+		unrec = append(unrec, "getValidationOptions not found")
+	}
+	sort.SliceStable(rows, func(i, j int) bool {
+		if rows[i].kind != rows[j].kind {
+			return rows[i].kind < rows[j].kind
+		}
+		if rows[i].fn != rows[j].fn {
+			return rows[i].fn < rows[j].fn
+		}
+		return rows[i].detail < rows[j].detail
+	})
+	var b strings.Builder
+	b.WriteString("-- GENERATED by go/cmd/extract (table C04OptionState) from the repository under test. Do not edit.\n")
+	fmt.Fprintf(&b, "-- rows: %d\n", len(rows)+len(unrec))
+	b.WriteString("namespace KinModel.Gen\n\n/-- origin of the settings record and the writes / reads of its fields outside the option constructors -/\n")
+	b.WriteString("structure C04OptionStateRow where\n  kind : String\n  fn : String\n  detail : String\n  deriving DecidableEq, Repr\n\n")
+	b.WriteString("def c04OptionState : List C04OptionStateRow := [\n")
+	for i, r := range rows {
+		sep := ","
+		if i == len(rows)-1 {
+			sep = ""
+		}
+		fmt.Fprintf(&b, "  ⟨%q, %q, %q⟩%s -- %s\n", r.kind, r.fn, r.detail, sep, r.pos)
+	}
+	b.WriteString("]\n\ndef c04OptionStateUnrecognised : List String := [")
+	for i, u := range unrec {
+		if i > 0 {
+			b.WriteString(", ")
+		}
+		fmt.Fprintf(&b, "%q", u)
+	}
+	b.WriteString("]\n\nend KinModel.Gen\n")
+	return b.String(), nil
+}
